@@ -5,7 +5,7 @@ GEN: systematic families (axes x node tests x positional predicates, comparison 
 RUN: harness/xp.cpp evaluates the rendered text on the real evaluator (low-level XPath API).
 TV : Trace_C02.tla recomputes every value from XPathSem.tla and compares."""
 import os, random, subprocess, json
-import vlib, xdm, xpgen
+import vlib, xdm, xpgen, xplex
 from xpgen import *
 from vlib import ROOT
 
@@ -143,7 +143,38 @@ def build_cases(rng, tier):
         e = g.any(rng.choice([1, 2, 2, 3]))
         size = rng.randint(1, 4)
         cases.append((d + 1, rng.randint(1, n), rng.randint(1, size), size, e, vs))
+    # token strings that may or may not be expressions: mutations of the valid ones
+    base = [c for c in cases if not c[5]]
+    for _ in range(3000 if quick else 40000):
+        d, ctx, pos, size, e, vs = rng.choice(base)
+        cases.append((d, ctx, pos, size, mutate_tokens(rng, xpgen.render(e)), {}))
     return docs, flats, cases
+
+
+TOKEN_POOL = ["(", ")", "[", "]", "/", "//", "|", "+", "-", "*", "=", "!=", "<", ">=", ",", "@", ".", "..", "::", "$", "and", "or", "div", "mod",
+              "a", "b", "child", "ancestor", "text", "node", "count", "last", "position", "1", "2.5", "'t'", "x", "self", "not", "comment"]
+
+
+def mutate_tokens(rng, text):
+    """a token string obtained from a valid expression by deleting / duplicating / swapping / replacing / inserting a token"""
+    toks = xplex.lex(text)
+    if not toks or any(t["k"] == "lit" and " " in "".join(map(chr, t["cp"])) for t in toks):
+        return text
+    parts = xplex.untokenize(toks).split(" ")
+    for _ in range(rng.choice([1, 1, 2])):
+        i = rng.randrange(len(parts))
+        op = rng.choice(["del", "dup", "swap", "rep", "ins"])
+        if op == "del" and len(parts) > 1:
+            del parts[i]
+        elif op == "dup":
+            parts.insert(i, parts[i])
+        elif op == "swap" and i + 1 < len(parts):
+            parts[i], parts[i + 1] = parts[i + 1], parts[i]
+        elif op == "rep":
+            parts[i] = rng.choice(TOKEN_POOL)
+        else:
+            parts.insert(i, rng.choice(TOKEN_POOL))
+    return " ".join(parts)
 
 
 def run_cases(docs, flats, cases, wd, kind="native", mode="eval", tag="c02", flavour="hooks"):
@@ -161,7 +192,7 @@ def run_cases(docs, flats, cases, wd, kind="native", mode="eval", tag="c02", fla
             f.write(json.dumps(head) + "\n")
             for k, (d, ctx, pos, size, e, vs) in enumerate(ch):
                 f.write(json.dumps({"id": k, "mode": mode, "doc": d, "ctx": ctx, "pos": pos, "size": size,
-                                    "text": xpgen.render(e), "vars": vs}) + "\n")
+                                    "text": e if isinstance(e, str) else xpgen.render(e), "vars": vs}) + "\n")
         rp = os.path.join(wd, "%s-res-%d.ndjson" % (tag, s))
         procs.append((s, ch, rp, subprocess.Popen([exe, cp], stdout=open(rp, "w"), stderr=subprocess.PIPE, env=dict(os.environ, ASAN_OPTIONS="detect_leaks=0"))))
     events, crashes = [], []
@@ -174,11 +205,20 @@ def run_cases(docs, flats, cases, wd, kind="native", mode="eval", tag="c02", fla
         for k, (d, ctx, pos, size, e, vs) in enumerate(ch):
             if k not in res:
                 if p.returncode != 0:
-                    crashes.append(({"doc": d, "ctx": ctx, "pos": pos, "size": size, "text": xpgen.render(e), "vars": vs,
+                    crashes.append(({"doc": d, "ctx": ctx, "pos": pos, "size": size, "text": e if isinstance(e, str) else xpgen.render(e), "vars": vs,
                                      "xml": head["docs"][d - 1]}, (err or b"").decode("utf8", "replace")[-400:], p.returncode))
                 break
-            ev = {"e": "Eval", "kind": mode, "doc": d, "ctx": ctx, "pos": pos, "size": size, "text": xpgen.render(e),
-                  "expr": xpgen.strip_render_only(e), "vars": vs}
+            if isinstance(e, str):          # a raw (possibly ill-formed) expression string: no AST is known
+                toks = xplex.lex(e)
+                ev = {"e": "Eval", "kind": mode, "doc": d, "ctx": ctx, "pos": pos, "size": size, "text": e,
+                      "toks": toks or [], "lexok": toks is not None, "vars": vs}
+            else:
+                text = xpgen.render(e)
+                ev = {"e": "Eval", "kind": mode, "doc": d, "ctx": ctx, "pos": pos, "size": size, "text": text,
+                      "expr": xpgen.strip_render_only(e), "vars": vs}
+                if mode == "eval":
+                    toks = xplex.lex(text)
+                    ev["toks"] = toks or []; ev["lexok"] = toks is not None
             r = res[k]
             for f in ("error", "res", "matched"):
                 if f in r:
@@ -203,6 +243,23 @@ def _bare_root(e):
 
 def classify(ev):
     """semantic keys of known deviations (see known_findings.jsonl)"""
+    if "expr" not in ev:
+        # a token string that is not an expression but was accepted: known leniencies of Xalan's lexer/parser
+        if "error" in ev:
+            return None
+        import re
+        t = ev["text"]
+        toks = [x["s"] if x["k"] == "sym" else x["k"] for x in ev.get("toks", [])]
+        if re.search(r"/\s+/|<\s+=|>\s+=|!\s+=|:\s+:", t):
+            return "splitTwoCharacterTokenAccepted"
+        for i in range(len(toks) - 1):
+            if toks[i] == "(" and toks[i + 1] == ")" and (i == 0 or toks[i - 1] != "name" or ev["toks"][i - 1]["s"] in ("and", "or", "div", "mod")):
+                return "emptyParenthesesAccepted"
+            if toks[i] == "$" and toks[i + 1] != "name":
+                return "dollarWithoutNameAccepted"
+        if toks and toks[-1] == "$":
+            return "dollarWithoutNameAccepted"
+        return None
     nodes = list(_walk(ev["expr"]))
     if "error" in ev and "unexpected" in ev["error"]:
         # a bare '/' followed by a token other than ')' or the end of the expression
@@ -231,6 +288,8 @@ def validate(res, events, flats, wd, tag, classify_fn, prop):
     known = {k["key"]: k for k in vlib.known_findings(prop)}
     for rj in rejects:
         ev = events[rj["line"]]
+        if rj["msg"].startswith("SPEC-INCONSISTENT"):
+            raise vlib.Infra("specification inconsistency on %r: %s" % (ev["text"], rj["msg"][:400]))
         key = classify_fn(ev)
         if key and key in known:
             res.known(known[key])
